@@ -414,8 +414,11 @@ func ProcessIndexRequestPle(tsNow uint64, indexNameIn string, flush bool,
 	}
 
 	for _, ple := range pleArray {
-		ple.SetTimestamp(utils.ExtractTimeStamp(ple.GetRawJson(), &tsKey))
-		if ple.GetTimestamp() == 0 {
+		// the record's own timestamp key wins; otherwise keep the event time the protocol
+		// handler set on the PLE (OTLP time_unix_nano, span start, HEC time); arrival time last
+		if ts := utils.ExtractTimeStamp(ple.GetRawJson(), &tsKey); ts != 0 {
+			ple.SetTimestamp(ts)
+		} else if ple.GetTimestamp() == 0 {
 			ple.SetTimestamp(tsNow)
 		}
 	}
